@@ -406,7 +406,7 @@ class World:
         s = self.sched
         s.adopt('main')
         try:
-            for _ in range(len(self.calls) + 1):
+            while True:
                 cmd = s.park('idle')
                 if cmd is None:
                     break
@@ -537,19 +537,75 @@ def label_thread(l):
     return l
 
 
-def run_real(cfg, labels, pcs, extra_calls=('start', 'stop')):
-    """drive the real listener along `labels`; returns the observation dict"""
+def real_walk(w, res, walk):
+    """schedule chosen by the REAL enabledness only (no model): uniform/sticky random choice among the
+    threads that can step; returns when maxlen is reached or nothing is enabled"""
+    import random
+    s = w.sched
+    rng = random.Random(walk['seed'])
+    up, starts, last = False, walk['starts'], None
+    for _ in range(walk['maxlen']):
+        cands = []
+        mt = s.ts['main']
+        if mt.tag == 'idle':
+            if not up and starts > 0:
+                cands.append('start')
+            if up:
+                cands.append('stop')
+        elif w.enabled('main'):
+            cands.append('main')
+        ct = s.ts.get('cb')
+        if ct is not None and not ct.done:
+            cands.append('cb')
+        for j in range(w.n):
+            nm = 's%d' % j
+            t = s.ts[nm]
+            if t.tag == 'send':
+                srv = w.servers[-1] if w.servers else None
+                if srv is not None and srv.accepting and len(w.responses[j]) < walk['perSender']:
+                    cands.append(nm)
+            elif w.enabled(nm):
+                cands.append(nm)
+        if not cands:
+            break
+        same = [l for l in cands if label_thread(l) == last]
+        l = rng.choice(same) if (same and rng.randrange(100) < walk['sticky']) else rng.choice(cands)
+        if l == 'cb' and ct.tag.startswith('incb') and rng.randrange(4) == 0:
+            l = 'cb!'
+        cmd = None
+        if l in ('start', 'stop'):
+            w.calls.append(l)
+            up = (l == 'start')
+            starts -= (l == 'start')
+            cmd = l
+        elif l == 'cb!':
+            cmd = 'raise'
+        last = label_thread(l)
+        s.step(last, cmd)
+        res['trace'].append(l)
+        res['vectors'].append(w.vector())
+    if up:
+        w.calls.append('stop')
+    w.n_model_calls = len(w.calls)
+
+
+def run_real(cfg, labels, pcs, extra_calls=('start', 'stop'), walk=None):
+    """drive the real listener along `labels` (or, with walk={seed,maxlen,perSender,starts,sticky}, along a
+    schedule chosen from the real enabledness); returns the observation dict"""
     patch_listener_module()
-    calls = [l for l in labels if l in ('start', 'stop')]
-    w = World(cfg, calls, extra_calls)
+    calls = [l for l in (labels or []) if l in ('start', 'stop')]
+    w = World(cfg, calls, extra_calls if walk is None else ())
     _CUR['sched'], _CUR['world'] = w.sched, w
     s = w.sched
-    res = {'diverged': None, 'hang': None, 'steps': 0, 'livelock': None}
+    res = {'diverged': None, 'hang': None, 'steps': 0, 'livelock': None, 'trace': [], 'vectors': []}
     try:
         w.start_threads()
         i = 0
         try:
-            for i, l in enumerate(labels):
+            if walk is not None:
+                real_walk(w, res, walk)
+                w.calls += list(extra_calls)
+            for i, l in enumerate(labels or []):
                 name = label_thread(l)
                 t = s.ts.get(name)
                 if t is None or t.done:
@@ -576,6 +632,7 @@ def run_real(cfg, labels, pcs, extra_calls=('start', 'stop')):
                     break
                 s.step(name, cmd)
                 res['steps'] = i + 1
+                res['trace'].append(l)
                 v = w.vector()
                 if pcs is not None and v != pcs[i]:
                     res['diverged'] = {'step': i, 'label': l, 'why': 'position vector', 'real': v, 'model': pcs[i]}
@@ -598,6 +655,9 @@ def run_real(cfg, labels, pcs, extra_calls=('start', 'stop')):
                 t = s.ts[nm]
                 cmd = w.next_call() if (nm == 'main' and t.tag == 'idle') else None
                 s.step(nm, cmd)
+                res['trace'].append(cmd if cmd else nm if nm != 'cb' else 'cb')
+                if walk is not None:
+                    res['vectors'].append(w.vector())
         except Hang as e:
             res['hang'] = str(e)
         mt = s.ts['main']
@@ -740,6 +800,55 @@ def work(item):
         import traceback
         return {'crash': traceback.format_exc()[-1500:], 'exc': type(e).__name__}
     return obs
+
+
+def work_walk(item):
+    """one schedule chosen by the real enabledness (pool worker)"""
+    cfg, walk = item
+    common.use_repo()
+    try:
+        return run_real(cfg, None, None, walk=walk)
+    except Exception as e:                       # harness failure: reported, never hidden
+        import traceback
+        return {'crash': traceback.format_exc()[-1500:], 'exc': type(e).__name__}
+
+
+def gen_real_walks(rng, n, thorough=False):
+    out = []
+    for _ in range(n):
+        cfg = {'n': rng.choice([1, 2, 2, 3]), 'maxQ': rng.choice([0, 0, 1, 2]), 'ncb': rng.choice([1, 1, 2])}
+        out.append((cfg, {'seed': rng.randrange(1 << 60), 'maxlen': rng.choice([30, 60, 100, 160]),
+                          'perSender': rng.choice([1, 2, 3, 4]), 'starts': rng.choice([1, 1, 2, 3]),
+                          'sticky': rng.choice([0, 40, 70, 90])}))
+    return out
+
+
+def judge_walk(run, cfg, walk, obs, model):
+    """a real-driven schedule: oracle on the real outputs + the model must be able to follow it"""
+    case = {'cfg': cfg, 'labels': obs.get('trace', []), 'real_walk': walk}
+    if 'crash' in obs:
+        run.disagree(case, None, obs, 'harness crashed while driving the real code')
+        return
+    if obs['hang']:
+        run.disagree(case, None, obs['hang'], 'hang')
+    elif model is not None:
+        if 'stuck' in model:
+            run.disagree(case, model, obs['vectors'][:model['stuck'] + 1][-2:],
+                         'the real threads made a step that is not enabled in the model')
+        else:
+            bad = next((i for i, (a, b) in enumerate(zip(obs['vectors'], model['pcs'])) if a != b), None)
+            mv = model_view(model['final'])
+            rv = {'log': obs['log'], 'responses': [[r[0] for r in rs] for rs in obs['responses']],
+                  'errs': [e for (_, e) in obs['outcomes'] if e is not None]}
+            if bad is not None:
+                run.disagree(case, model['pcs'][bad], {'step': bad, 'real': obs['vectors'][bad]},
+                             'position vector on a real-driven schedule')
+            elif mv != rv:
+                run.disagree(case, mv, rv, 'final observation on a real-driven schedule')
+    for sig, detail in oracle(cfg, obs):
+        run.violate(sig, {'cfg': cfg, 'labels': obs['trace'], 'pcs': None},
+                    {'detail': detail, 'outcomes': obs['outcomes'], 'log': obs['log'],
+                     'responses': obs['responses'], 'found_by': 'real-driven walk'})
 
 
 def gen_requests(run):
@@ -908,6 +1017,25 @@ def run(run):
         judge(run, cfg, labels, pcs, final, obs, origin)
         if 'crash' not in obs:
             stats(run, cfg, labels, final, obs, origin)
+    # schedules chosen from the REAL enabledness (not filtered by the model): the model must follow them
+    walks = gen_real_walks(run.rng, 20000 if run.thorough else 1200, run.thorough)
+    t0 = time.time()
+    wres = common.pmap(work_walk, walks, chunksize=16)
+    run.extra['real_walk_wall_s'] = round(time.time() - t0, 1)
+    ok = [(cfg, wk, obs) for (cfg, wk), obs in zip(walks, wres) if 'crash' not in obs]
+    models = common.run_driver(PROP, [{'op': 'run', 'cfg': cfg_json(cfg), 'labels': obs['trace']}
+                                      for cfg, wk, obs in ok]) if ok else []
+    mi = iter(models)
+    for (cfg, wk), obs in zip(walks, wres):
+        model = next(mi) if 'crash' not in obs else None
+        run.case({'cfg': cfg, 'labels': ' '.join(obs.get('trace', [])), 'real': True},
+                 nontrivial=bool(obs.get('log')))
+        run.count('origin:real-walk')
+        if 'crash' not in obs:
+            run.count('steps', len(obs['trace']))
+            if any(r and r[0] == 'err' for rs in obs['responses'] for r in rs):
+                run.count('with-refusal')
+        judge_walk(run, cfg, wk, obs, model)
     smoke(run)
 
 
@@ -915,8 +1043,9 @@ def run(run):
 
 def free_port():
     import random
+    rnd = random.SystemRandom()            # forked children share the parent's random state
     for _ in range(200):
-        p = random.randint(50000, 59999)
+        p = rnd.randint(50000, 59999)
         s = socket.socket()
         try:
             s.bind(('127.0.0.1', p))
@@ -1042,7 +1171,8 @@ def smoke_failed_start():
             pass
         finally:
             s.close()
-        s = socket.socket()                              # nobody connected: a plain bind must work
+        s = socket.socket()                              # and the listener's own kind of bind must work
+        s.setsockopt(socket.SOL_SOCKET, socket.SO_REUSEADDR, 1)
         try:
             s.bind(('127.0.0.1', p))
         except OSError:
@@ -1140,11 +1270,30 @@ def search(run):
             found.append(v)
         if len(found) > 20:
             break
+    # schedules the model would not produce: real enabledness only
+    walks = gen_real_walks(rng, 4000)
+    for (cfg, wk), obs in zip(walks, common.pmap(work_walk, walks, chunksize=16)):
+        if 'crash' in obs or len(found) > 40:
+            continue
+        for sig, detail in oracle(cfg, obs):
+            v = {'sig': sig, 'case': {'cfg': cfg, 'labels': obs['trace'], 'pcs': None},
+                 'observed': {'detail': detail, 'outcomes': obs['outcomes'], 'log': obs['log'],
+                              'found_by': 'real-driven walk'}}
+            run.violations.append(v)
+            found.append(v)
     return found
 
 
 def oracle_only(run):
-    """no model available: hand-written schedules are impossible without it; use the loopback pass"""
+    """the Lean build failed (e.g. the pinned source facts changed).  If a driver binary from an earlier
+    build exists it is still a valid schedule generator, and the oracle does not depend on the model: run
+    everything (K disagreements then only add to an already broken verdict); else the loopback pass"""
+    exe = common.driver_path(PROP)
+    if os.path.exists(exe):
+        try:
+            return globals()['run'](run)
+        except Exception as e:                                    # noqa
+            run.notes.append('driver unusable after failed build: %r' % (e,))
     smoke(run)
 
 
